@@ -88,6 +88,10 @@ def _symbols(v, out):
     elif v[0] in ("struct", "match"):
         for x in v[1].values():
             _symbols(x, out)
+    elif v[0] == "fmt":
+        for x in v[1]:
+            if not isinstance(x, str):
+                _symbols(x, out)
     elif v[0] == "some":
         _symbols(v[1], out)
     elif v[0] == "if":
@@ -127,7 +131,7 @@ def match_modulo(got_by_case, want_by_case, roles, fixed_prefixes=("box.", "$"))
                 _toks(y)
     _toks(list(want_by_case.values()))
     scalars = sorted(s for s in syms if s not in FUNCS and s not in ref_tokens and not s.startswith(fixed_prefixes) and not re.fullmatch(r"[0-9.]+", s))
-    prefixes = sorted({s.rsplit(".", 1)[0] + "." for s in scalars if "." in s})
+    prefixes = sorted({s.rsplit(".", 1)[0] + "." for s in scalars if "." in s and "(" not in s and ")" not in s})
     s_roles = [r for r in roles if not r.endswith(".")]
     o_roles = [r for r in roles if r.endswith(".")]
     if len(scalars) < len(s_roles) or len(prefixes) < len(o_roles):
@@ -144,7 +148,11 @@ def match_modulo(got_by_case, want_by_case, roles, fixed_prefixes=("box.", "$"))
             ren = dict(zip(s_roles, perm))
             bad = []
             for case, want in want_by_case.items():
-                w = A.ref(_subst(_subst_prefix(want, oren), ren))
+                try:
+                    w = A.ref(_subst(_subst_prefix(want, oren), ren))
+                except ValueError:
+                    bad.append(case)
+                    continue
                 if not A.equal(got_by_case.get(case), w):
                     bad.append(case)
             if not bad:
@@ -155,7 +163,12 @@ def match_modulo(got_by_case, want_by_case, roles, fixed_prefixes=("box.", "$"))
     if best is None:
         return None, "no candidate renaming"
     ren, bad, oren, sren = best
-    det = "; ".join(f"{c}: code {A.canon(got_by_case.get(c))} vs reference {A.canon(A.ref(_subst(_subst_prefix(want_by_case[c], oren), sren)))}" for c in bad[:4])
+    def _refcanon(c):
+        try:
+            return A.canon(A.ref(_subst(_subst_prefix(want_by_case[c], oren), sren)))
+        except ValueError:
+            return "<unparseable under this reading>"
+    det = "; ".join(f"{c}: code {A.canon(got_by_case.get(c))} vs reference {_refcanon(c)}" for c in bad[:4])
     return None, f"no consistent reading of {roles} makes all cases agree; closest ({ren}) fails for {det}"
 
 
@@ -199,6 +212,9 @@ def _case_value(prog, ent, case_name, case):
                 argv.append(("obj", v))
             else:
                 argv.append(("obj", f"${k}"))
+    if ent.get("args_some_box") and argv is None:
+        # write_root_svg(first_svg, bbox: Option<BoundingBox>, writer): the content box is present
+        argv = [("obj", "$1"), ("some", ("obj", "box")), ("obj", "$3")]
     self_value = None
     if isinstance(case, dict) and case.get("self"):
         fields = {}
